@@ -76,7 +76,7 @@ pager on an `n`-node cluster, idempotent / not idempotent statement. -/
 /- `ctl`: the control connection's own use of the single-connection pager (the paged `system.peers`
 query of the metadata fetch, `ControlConnection::query_iter` -> `Connection::execute_iter`). -/
 def kindOf (k : String) : Option Kind :=
-  if k == "pg" || k == "pgk" || k == "ctl" then some .conn
+  if k == "pg" || k == "pgk" || k == "sessk" || k == "ctl" then some .conn
   else if k == "sess" || k == "squery" then some .sess
   else if k == "sessdg" then some .dg
   else if k.startsWith "clu" && k.length == 5 then
@@ -94,7 +94,7 @@ def lettersOk (kind : String) (ps : List (Nat × Option PState × List Char)) : 
   let later := (fs.drop 1).flatten
   let all := fs.flatten
   !later.contains 'X' && !later.contains 'k' && !later.contains 'K' &&
-  (if kind == "pg" || kind == "pgk" then !all.contains 'k' && !all.contains 'K' else true) &&
+  (if kind == "pg" || kind == "pgk" || kind == "sessk" then !all.contains 'k' && !all.contains 'K' else true) &&
   (if kind == "squery" then !all.contains 'u' else true) &&
   (if kind.startsWith "clu" then all.all (fun c => c == 'd' || (ScyllaVerif.PagerExec.outcomeOf c).isSome) else true) &&
   (if kind == "sessdg" then !all.contains 'X' else true) &&
@@ -156,10 +156,10 @@ def runCore (case impl : String) : String :=
       if ps.isEmpty then "bad-case" else
       let pages := buildPages 0 ps
       if kind == "sessdg" && !(ps.all fun p => dgSupported p.2.2) then "bad-case" else
-      if kind == "pgk" && ext then "bad-case" else
+      if (kind == "pgk" || kind == "sessk") && ext then "bad-case" else
       if kind == "ctl" && (ext || cons != "eager") then "bad-case" else
       if !lettersOk kind ps then "bad-case" else
-      if kind == "pgk" then
+      if kind == "pgk" || kind == "sessk" then
         -- the bound values lack the partition-key value: PartitionKeyError before the first fetch
         let s := initFailed pages [] "PartitionKey"
         showSt s (showLog s)
